@@ -277,7 +277,81 @@ def r7(ctx):
     ctx.floor(R, 2)
 
 
+def r9(ctx):
+    R = "C06-R9"
+    ctx.rule(R, "zero-window recovery (necessary for 'neither side is left waiting forever'): a sender told `window = 0` with nothing in "
+                "flight can only be restarted by a segment it receives or by a segment it sends on its own. (a) every emission the kernel "
+                "makes spontaneously - reachable from Kernel::egress without passing through packet delivery - is classified: cut to the "
+                "remaining send window (segment_one), handshake-only (emit_handshake, SynSent / SynReceived), or a reset; anything else "
+                "counts as a persist probe / periodic re-advertisement; if there is none, one lost window update is fatal. (b) the "
+                "receiver's only window re-advertisement (poll_recv) must not depend on the size of the reader's buffer")
+    eg = ctx.body(R, "turmoil_net::kernel::Kernel::egress")
+    if not eg:
+        return
+    spont = reach_bodies(ctx.w, [eg.id], stop=lambda i: re.search(r"::(Kernel::deliver|tcp::deliver|udp::deliver)$", i) is not None)
+    EMIT = re.compile(r"^turmoil_net::kernel::tcp::emit$")
+    sites, other = [], []
+    for bid in sorted(spont):
+        b = ctx.w.bodies[bid]
+        for bb, t in b.calls(EMIT):
+            root = b
+            while root.parent and root.parent in ctx.w.bodies:
+                root = ctx.w.bodies[root.parent]
+            kind = None
+            # window-gated: dominated by the true edge of a comparison whose value derives from snd_wnd
+            gt = []
+            for sbb, te, fe, o in guards_on(b, lambda o: o["k"] == "bin" and o["op"] in ("Gt", "Ne", "Ge", "Lt")):
+                if "field:" + T + "snd_wnd" in Slicer(ctx.w).atoms(b, o["a"]) | Slicer(ctx.w).atoms(b, o["b"]):
+                    gt += te if o["op"] != "Lt" else fe
+            if gt and b.dominated_by_any(bb, edges=gt):
+                kind = "cut to the remaining send window"
+            if kind is None:
+                # reset: the segment's flags carry rst = true
+                seg = origin(b, t["args"][3]) if len(t["args"]) > 3 else {"k": "?"}
+                at = Slicer(ctx.w).atoms(b, t["args"][3]) if len(t["args"]) > 3 else set()
+                if root.id.endswith("::emit_rst"):
+                    kind = "reset"
+            if kind is None:
+                # handshake-only: the function matches on Tcb::state and knows only SynSent / SynReceived
+                for sbb, m, els, adt, pl in variant_edges(b, lambda p: place_last_field(p) == T + "state"):
+                    names = {k for k in m if isinstance(k, str)}
+                    if names and names <= {"SynSent", "SynReceived"} and not reaches_return(b, els[1]):
+                        kind = "handshake retransmission"
+            sites.append((root.id, t["s"], kind))
+            if kind is None:
+                other.append((root.id, t["s"]))
+    for rid, site, kind in sites:
+        ctx.info(R, f"spontaneous-emit:{rid}", site, kind or "not window-gated: counts as a probe / periodic advertisement")
+    ok = bool(other)
+    ctx.inst(R, "zero-window:no-persist-probe", ok, eg.span,
+             f"a spontaneous emission independent of the send window exists ({other[0][0]})" if ok else
+             "every segment the kernel sends on its own is cut to the remaining send window, a handshake retransmission or a reset "
+             f"({len(sites)} sites): a sender whose peer advertised window 0 sends nothing more, and pure ACKs are never retransmitted - "
+             "one lost window update (or one never sent) leaves writer and reader waiting forever with no error "
+             "[findings/D6/demo_lost_window_update.rs: recv_buf_cap=8, 32 bytes, 1 dropped ACK -> 8 bytes delivered, no EOF]")
+    pr = ctx.body(R, "turmoil_net::kernel::tcp::poll_recv")
+    if pr:
+        em = [bb for bb, t in pr.calls(EMIT)]
+        dep = None
+        for sbb, t in switch_blocks(pr):
+            if len(pr.succ(sbb)) < 2 or not em:
+                continue
+            if not any(pr.dominated_by_edge(x, (sbb, s2)) for x in em for s2 in pr.succ(sbb)):
+                continue
+            at = Slicer(ctx.w).atoms(pr, t["d"])
+            if any(a.startswith("arg:4:") for a in at) and "field:" + T + "recv_buf" in at:
+                dep = pr.term(sbb).get("s") or pr.span
+        okb = bool(em) and dep is None
+        ctx.inst(R, "zero-window:update-depends-on-read-size", okb, dep or pr.span,
+                 "poll_recv re-advertises the window independently of the reader's buffer size" if okb else
+                 "poll_recv re-advertises the receive window only when a single read frees a given share of the cap: a reader that drains a "
+                 "full buffer in smaller reads never re-opens the window it closed, and nothing else does (see no-persist-probe) "
+                 "[findings/D6/demo_zero_window_stall.rs: recv_buf_cap=8, 1-byte reads, lossless link -> 8 of 32 bytes, then both sides wait forever]")
+    ctx.floor(R, 2)
+
+
 def run(ctx):
+    r9(ctx)
     scan_rule(ctx, "C06")
     r1(ctx)
     r2(ctx)
